@@ -140,6 +140,7 @@ func init() {
 	intrinsics[apiPkg+".Assume"] = func(fr *frame, a []value) value { X.assume(a[0]); return nil }
 	intrinsics[apiPkg+".Assert"] = func(fr *frame, a []value) value { X.assertProp(a[0], conc(a[1])); return nil }
 	intrinsics[apiPkg+".MapOrderAll"] = func(fr *frame, a []value) value { MapOrderAll = a[0].(bool); return nil }
+	intrinsics[apiPkg+".MapOrder"] = func(fr *frame, a []value) value { MapOrderMode = int(asInt64(a[0])); return nil }
 	intrinsics[apiPkg+".Cover"] = func(fr *frame, a []value) value { X.Covered[a[0].(string)]++; return nil }
 	intrinsics[apiPkg+".Symbolic"] = func(fr *frame, a []value) value { return X.Concrete == nil }
 	intrinsics[apiPkg+".Observe"] = func(fr *frame, a []value) value {
@@ -248,6 +249,7 @@ func Explore(prog *ssa.Program, harness *ssa.Function, opt Options, solver *Solv
 			e.Concrete = cp
 		}
 		MapOrderAll = false
+		MapOrderMode = 0
 		resetMonitors()
 		solver.send("(push)")
 		res := runPath(prog, harness, opt)
